@@ -11,7 +11,7 @@ import vlib
 from vlib import Infra, log
 from engine import Run, rerun
 from fam_field import FIELD
-from fam_tower import TOWER
+from fam_tower import TOWER, tower_machine
 from fam_curve import CURVE
 from fam_pairing import PAIR
 from fam_wkdibe import WK
@@ -198,6 +198,22 @@ def run(tier):
                     v[1] += 1
                     if v[3] is None: v[3], v[4] = bad[(e["aid"], e["cfg"], e["alias"])]
                 run.classes.add((k[0], k[1], e["cfg"], op_class(e)))
+    # design level, from the source text: the tower's straight-line functions executed by TowerMachine.tla with the output bound to an input
+    tm_cases, tm_fails, tm_unsupported = tower_machine(run, tier, with_alias=True)
+    tm_bad = {(e["cls"], e["name"], e["seed"], e["alias"]): (e, ls) for e, ls in tm_fails}
+    for c in tm_cases:
+        if c["alias"] == 0: continue
+        k = ("src:%s::%s" % (c["cls"], c["name"]), c["alias"])
+        v = verdict.setdefault(k, [0, 0, 0, None, None]); v[2] += 1
+        if (c["cls"], c["name"], c["seed"], 0) in tm_bad: twin_bad.append("%s code %s" % k); continue
+        v[0] += 1
+        hit = tm_bad.get((c["cls"], c["name"], c["seed"], c["alias"]))
+        if hit:
+            v[1] += 1
+            if v[3] is None:
+                e = dict(hit[0]); e["akey"] = k[0]; e["acode"] = k[1]; v[3], v[4] = e, hit[1]
+        run.classes.add((k[0], k[1], "source", c["seed"] % 3))
+    run.extra["source_functions_not_straight_line"] = tm_unsupported
     # the specification judges
     vf = os.path.join(sc, "verdicts.ndjson")
     vlib.write_ndjson(vf, [{"key": k[0], "code": k[1], "twin_ok": v[0], "alias_bad": v[1], "n": v[2]} for k, v in sorted(verdict.items())])
@@ -214,6 +230,7 @@ def run(tier):
         fails.append((ev, ls))
     def key_of(ev, labels): return "alias:%s:code%s:%s:%s" % (ev["akey"], ev["acode"], ev["cfg"], "+".join(labels))
     def confirm(ev, labels):
+        if ev.get("op", "").startswith("tm."): return True
         try: return bool(rerun(run, FAMS[fam_of(ev["akey"])], ev))
         except Infra: return True
     run.classify(fails, key_of, confirm)
